@@ -4,6 +4,7 @@
        verdict <checked 0|1> | <stmt id>:<class> ... | <fn id>:<class> ... | S <residual stmts> F <residual fns> | D <dead ids> | L <live fn ids>
        verdict2 <checked main> <checked aug> | classes under the augmented plan | residual | A <added stmt ids>   (PlanCheck.plan_ok2)
        verdict3 <checked main> <checked liveness> | A <residual stmt ids accepted as flow-sensitive dead stores> | S <residual stmts> F <residual fns>   (LiveCheck.plan_ok3)
+       verdict4 ... the same for LiveCheck.plan_ok4 (round 4: right-hand sides calling pure, trap-free user functions)
      classes: U unreachable, N never-read (covered), NM never-read but rhs may raise Type mismatch /
               declaration kept, DS dead store (flow), DC dead store with calls, X no class;
               functions: UF unused, XF no class *)
@@ -160,7 +161,13 @@ let langc03_mode inp outp =
              let (rs3, rf3) = x.x_residual in
              Printf.fprintf oc "verdict3 %d %d | A %s | S %s F %s\n"
                (if x.x_main.v_checked then 1 else 0) (if x.x_checked then 1 else 0)
-               (zs x.x_acc) (zs rs3) (zs rf3)
+               (zs x.x_acc) (zs rs3) (zs rf3);
+             (* round 4: the same with right-hand sides that call pure, trap-free user functions *)
+             let y = plan_ok4 p ss fs in
+             let (rs4, rf4) = y.x_residual in
+             Printf.fprintf oc "verdict4 %d %d | A %s | S %s F %s\n"
+               (if y.x_main.v_checked then 1 else 0) (if y.x_checked then 1 else 0)
+               (zs y.x_acc) (zs rs4) (zs rf4)
          | Some _, _ -> Printf.fprintf oc "verdict none\n"
          | None, _ -> ())
     | "end" :: id :: _ -> Printf.fprintf oc "end %s\n" id
